@@ -115,7 +115,7 @@ def gen_tree_vs_grid(rng):
     ax = rng.randrange(nd)
     ch = [([1] * n if i == ax or rng.random() < 0.5 else _chunking(rng, n, "rand")) for i, n in enumerate(shape)]
     steps = [{"op": "from_array", "in": [], "args": {"src": "s0", "chunks": ch}, "out": "v0"},
-             {"op": "window", "in": ["v0"], "args": {"axis": ax, "w": rng.randint(2, 3), "reduce": rng.choice(["max", "min", "sum", "mean"])},
+             {"op": "window", "in": ["v0"], "args": {"axis": ax, "w": rng.randint(2, 3), "reduce": rng.choice(["max", "min", "sum"])},
               "out": "v1"},
              {"op": "reduction", "in": ["v1"], "args": {"f": rng.choice(["argmax", "argmin"]), "axis": rng.choice([ax, ax, None])}, "out": "v2"}]
     hist = []
